@@ -103,6 +103,40 @@ def _one(prop: str, base: str, m: Dict[str, Any], baseline: set) -> Dict[str, An
         shutil.rmtree(root, ignore_errors=True)
 
 
+def _seed(prop: str, base: str, sid: str, patch: str, baseline: set) -> Dict[str, Any]:
+    """A kept seeded defect (/verif/seeded/<id>/patch.diff, written by an independent sub-agent and confirmed to break the property):
+    applied to a scratch copy, the quick check must report a violation that the unmodified copy does not."""
+    root = _make_scratch(base, 's_' + sid)
+    try:
+        ap = subprocess.run(['git', 'apply', '-p1', patch], cwd=root, capture_output=True, text=True)
+        if ap.returncode != 0:
+            return {'id': 'seed:' + sid, 'status': 'stale', 'expect': prop}
+        res = _run_check(prop, root)
+        new = [ln for ln in res.stdout.splitlines() if re.search(r' \[C\d\d\.\w+\]', ln) and _strip(ln) not in baseline and not ln.startswith(('KNOWN', 'UNRECOGNISED'))]
+        has_v = any(ln.startswith('VIOLATION ') for ln in res.stdout.splitlines())
+        if res.returncode == 1 and new and has_v:
+            return {'id': 'seed:' + sid, 'status': 'detected', 'expect': prop, 'report': new[0][:300]}
+        return {'id': 'seed:' + sid, 'status': 'MISSED', 'expect': prop, 'exit': res.returncode, 'stdout_tail': res.stdout[-600:]}
+    finally:
+        shutil.rmtree(root, ignore_errors=True)
+
+
+def _kept_seeds(prop: str) -> List[Any]:
+    import json
+    out = []
+    sdir = os.path.join(VERIF, 'seeded')
+    for sid in sorted(os.listdir(sdir)) if os.path.isdir(sdir) else []:
+        meta_p = os.path.join(sdir, sid, 'meta.json')
+        patch = os.path.join(sdir, sid, 'patch.diff')
+        if not (os.path.exists(meta_p) and os.path.exists(patch)):
+            continue
+        meta = json.load(open(meta_p))
+        det = meta.get('detected_by', '')
+        if re.search(r'\b' + prop + r'\.', det) or (meta.get('property') == prop and not re.search(r'\bC\d\d\.', det)):
+            out.append((sid, patch))
+    return out
+
+
 def run_selftest(ctx: Any, prop: str, rules: Any) -> None:
     mutants: List[Dict[str, Any]] = list(getattr(rules, 'MUTANTS', []))
     if not mutants:
@@ -119,6 +153,7 @@ def run_selftest(ctx: Any, prop: str, rules: Any) -> None:
         baseline = {_strip(ln) for ln in res0.stdout.splitlines() if ' [' in ln}
         with concurrent.futures.ThreadPoolExecutor(max_workers=min(16, os.cpu_count() or 4)) as ex:
             futs = [ex.submit(_one, prop, base, m, baseline) for m in mutants]
+            futs += [ex.submit(_seed, prop, base, sid, patch, baseline) for sid, patch in _kept_seeds(prop)]
             results = [f.result() for f in futs]
     finally:
         shutil.rmtree(base, ignore_errors=True)
@@ -126,12 +161,16 @@ def run_selftest(ctx: Any, prop: str, rules: Any) -> None:
     ctx.selftest = {
         'mutants': len(results),
         'detected': sum(1 for r in results if r['status'] == 'detected'),
+        'kept_seeds_detected': sum(1 for r in results if r['status'] == 'detected' and r['id'].startswith('seed:')),
         'negative_controls_silent': sum(1 for r in results if r['status'] == 'silent-ok'),
         'repairs_silence_known_findings': sum(1 for r in results if r['status'] == 'repair-silences'),
         'refused_no_verdict': sum(1 for r in results if r['status'] == 'refused'),
         'stale': [r['id'] for r in results if r['status'] == 'stale'],
         'results': results,
     }
+    for r in results:
+        if r['status'] == 'stale':
+            print(f'SELFTEST-STALE property={prop} mutant={r["id"]}: its anchor text no longer occurs in the tree (variant skipped; refresh it)')
     if missed:
         for r in missed:
             print(f'SELFTEST-MISSED property={prop} mutant={r["id"]} expected rule {r["expect"]}: {r.get("stdout_tail", r.get("detail", ""))[-300:]}')
